@@ -84,7 +84,20 @@ def helper_battery(run):
 #include <cstdio>
 using namespace formak::innovation_filtering::edit;
 template <int m> Eigen::Matrix<double, m, m> ident() { Eigen::Matrix<double, m, m> I = Eigen::Matrix<double, m, m>::Zero(); for (int i = 0; i < m; ++i) I(i, i) = 1.0; return I; }
+// IEEE boundary grid: with nu = e_1 and S_inv = diag(x, 1, ..., 1) the NIS is exactly x; the bound is computed as the property writes it
+template <int m> int grid(double k) {
+  double b = k * std::sqrt(2 * m) + m;
+  Eigen::Matrix<double, m, 1> nu = Eigen::Matrix<double, m, 1>::Zero(); nu(0, 0) = 1.0;
+  double xs[3] = {b, std::nextafter(b, 1e300), std::nextafter(b, -1e300)};
+  int want[3] = {0, 1, 0}, bad = 0;
+  for (int i = 0; i < 3; ++i) { Eigen::Matrix<double, m, m> S = ident<m>(); S(0, 0) = xs[i];
+    if ((int)removeInnovation<m>(k, nu, S) != want[i]) { printf("gridfail m=%d k=%g case=%d\n", m, k, i); ++bad; } }
+  return bad;
+}
 int main() {
+  { double ks[9] = {0.25, 0.5, 1.0, 1.5, 2.0, 3.0, 5.0, 0.1, 7.3}; int bad = 0;
+    for (double k : ks) bad += grid<1>(k) + grid<2>(k) + grid<3>(k) + grid<4>(k) + grid<5>(k) + grid<6>(k) + grid<8>(k);
+    printf("grid %d\n", bad); }
   { Eigen::Matrix<double, 2, 1> nu; nu(0, 0) = 1.0; nu(1, 0) = 2.0; printf("at2 %d\n", (int)removeInnovation<2>(1.5, nu, ident<2>())); }
   { Eigen::Matrix<double, 2, 1> nu; nu(0, 0) = 1.0; nu(1, 0) = 2.0009765625; printf("above2 %d\n", (int)removeInnovation<2>(1.5, nu, ident<2>())); }
   { Eigen::Matrix<double, 2, 1> nu; nu(0, 0) = 1.0; nu(1, 0) = 1.9990234375; printf("below2 %d\n", (int)removeInnovation<2>(1.5, nu, ident<2>())); }
@@ -94,7 +107,7 @@ int main() {
   { Eigen::Matrix<double, 1, 1> nu; nu(0, 0) = 2.0; Eigen::Matrix<double, 1, 1> s; s(0, 0) = 0.5; printf("inside1 %d\n", (int)removeInnovation<1>(3.0, nu, s)); }
   return 0; }
 """
-    want = {"at2": 0, "above2": 1, "below2": 0, "at8": 0, "above8": 1, "scaled1": 1, "inside1": 0}
+    want = {"grid": 0, "at2": 0, "above2": 1, "below2": 0, "at8": 0, "above8": 1, "scaled1": 1, "inside1": 0}
     import tempfile
 
     with tempfile.TemporaryDirectory(prefix="formak-helper-") as d:
@@ -103,9 +116,10 @@ int main() {
         if c.returncode != 0:
             return [f"helper does not compile against the stand-in: {c.stderr[-300:]}"]
         out = subprocess.run([os.path.join(d, "drv")], capture_output=True, text=True, timeout=60).stdout
-    got = {ln.split()[0]: int(ln.split()[1]) for ln in out.splitlines() if ln.strip()}
+    got = {ln.split()[0]: int(ln.split()[1]) for ln in out.splitlines() if ln.strip() and not ln.startswith("gridfail")}
+    gridfails = [ln for ln in out.splitlines() if ln.startswith("gridfail")]
     run.native_runs += len(want)
-    return [f"removeInnovation case {k}: returned {got.get(k)}, the property's decision is {v}" for k, v in want.items() if got.get(k) != v]
+    return [f"removeInnovation case {k}: returned {got.get(k)}, the property's decision is {v}" + (f" ({'; '.join(gridfails[:3])}: case 0 = NIS exactly the bound, 1 = one ulp above, 2 = one ulp below)" if k == "grid" and gridfails else "") for k, v in want.items() if got.get(k) != v]
 
 
 def triage(run, rep, hc, hk, pid):
@@ -160,7 +174,7 @@ def check_c06(run):
         rep.obligations = [ob for ob in rep.obligations if ob.name.startswith("C06.") or ".records_innovation" in ob.name or ".frame." in ob.name or ".no_exception" in ob.name or ".well_formed." in ob.name]
         if rep.key.endswith(":removeInnovation"):
             bat = helper_battery(run)
-            run.bounded.append({"what": "compiled removeInnovation<m> (g++, stand-in) at exact boundary points (m=2,k=1.5: threshold 5; m=8,k=0.5: threshold 10), just above/below, and scaled S^-1", "bound": "7 calls", "failures": len(bat), "counted_as_proved": False})
+            run.bounded.append({"what": "compiled removeInnovation<m> (g++, stand-in) at exact boundary points (m=2,k=1.5: threshold 5; m=8,k=0.5: threshold 10), just above/below, and scaled S^-1", "bound": "7 calls + a 9 x 7 grid of (k, m) at the bound and one ulp either side", "failures": len(bat), "counted_as_proved": False})
             bad = [ob for ob, _, _ in driver.refuted(run, rep)]
             if bat:
                 name = bad[0].name if bad else "C06.cxx.removeInnovation.native_battery"
